@@ -271,6 +271,37 @@ func ruleDamageReported(p *Prog, r *Report, rule string) {
 		}
 	})
 	r.Check(bad == "", fnName(fn), "corrupt-verdict-returned", "the result of corrupt() (skip / strict error) is returned to the caller", "corrupt() result dropped at "+bad, bad)
+	// the verdict itself: strict readers halt on damage (latched corruption error) unless the damage
+	// is a skippable orphan; tolerant readers get errSkip
+	if cf := resolveFn(p, r, "leveldb/journal", "(*Reader).corrupt"); cf != nil {
+		strict := boolAtom("strict", mFieldLoad(tR, "strict"))
+		skip := boolAtom("skip", mParam("skip"))
+		latch := evStoreField(tR, "err")
+		checkGuard(p, r, GuardSpec{Rule: "halts-only-strict-nonskippable", Fn: cf, Target: latch, TargetDesc: "latching a corruption error (the reader halts)", Atoms: []Atom{strict, skip}, G: func(a []bool) bool { return a[0] && !a[1] }, GDesc: "strict ∧ ¬skip", MinTargets: 1})
+		checkGuardExact(p, r, GuardSpec{Rule: "strict-reader-halts", Fn: cf, Target: latch, TargetDesc: "the corruption is latched and returned", Atoms: []Atom{strict, skip}, G: func(a []bool) bool { return a[0] && !a[1] }, GDesc: "strict ∧ ¬skip"}, isReturn, "return")
+		retSkip := func(in ssa.Instruction) bool {
+			ret, ok := in.(*ssa.Return)
+			if !ok || len(ret.Results) != 1 {
+				return false
+			}
+			u, ok := stripConv(ret.Results[0]).(*ssa.UnOp)
+			if !ok {
+				return false
+			}
+			g, ok := u.X.(*ssa.Global)
+			return ok && g.Name() == "errSkip"
+		}
+		checkGuard(p, r, GuardSpec{Rule: "skip-only-tolerant-or-skippable", Fn: cf, Target: retSkip, TargetDesc: "return errSkip", Atoms: []Atom{strict, skip}, G: func(a []bool) bool { return !a[0] || a[1] }, GDesc: "¬strict ∨ skip", MinTargets: 1})
+		ordOnSuccess(p, r, cf, "damage-always-reported-to-dropper", assumeBool(func(v ssa.Value) (bool, bool) {
+			if x, nonNil, ok := condNilTest(v); ok && isFieldLoad(x, tR, "dropper") {
+				return nonNil, true
+			}
+			return false, false
+		}), func(in ssa.Instruction) bool {
+			c, ok := in.(*ssa.Call)
+			return ok && c.Call.IsInvoke() && c.Call.Method.Name() == "Drop"
+		}, "dropper.Drop")
+	}
 	// acceptance requires the checks to have passed: r.last is set only after the type/length/CRC gates (C12.1)
 	// callers: a non-nil result of nextChunk(false) abandons the record
 	if rd := resolveFn(p, r, "leveldb/journal", "(*singleReader).Read"); rd != nil {
